@@ -74,7 +74,10 @@ impl Host {
         self.subscriber.create_subscription(s).await.map(|r| r.into_inner())
     }
     async fn publish(&mut self, topic: &str, msgs: Vec<(Vec<u8>, HashMap<String, String>)>) -> Result<Vec<String>, tonic::Status> {
-        self.publisher.publish(PublishRequest { topic: topic.to_string(), messages: msgs.into_iter().map(|(d, a)| PubsubMessage { publish_time: None, attributes: a, message_id: String::new(), ordering_key: String::new(), data: d }).collect() })
+        self.publisher.publish(PublishRequest { topic: topic.to_string(), messages: msgs.into_iter().enumerate().map(|(i, (d, a))| PubsubMessage { publish_time: None, attributes: a, message_id: String::new(),
+            // ordering keys in descending order of the request position, every third message without one: deltio does not
+            // implement ordered delivery, request order must be kept whatever the keys are
+            ordering_key: if i % 3 == 2 { String::new() } else { format!("key-{:04}", 9999 - (i % 10000)) }, data: d }).collect() })
             .await.map(|r| r.into_inner().message_ids)
     }
     #[allow(deprecated)]
@@ -453,7 +456,7 @@ async fn s_lists_and_content(h: &mut Host) -> Result<(), Fail> {
         if got != subs { return Err(f("C13+C11", format!("ListTopicSubscriptions(page_size={}) walk yields {:?}, expected {:?}", size, got, subs))); }
     }
     // content identity (C09) on pull, redelivery and a second subscription
-    let attrs: HashMap<String, String> = [("k".to_string(), "v".to_string()), ("k\u{e9}".to_string(), "\u{1F600}".to_string())].into_iter().collect();
+    let attrs: HashMap<String, String> = [("k".to_string(), "v".to_string()), ("k\u{e9}".to_string(), "\u{1F600}".to_string()), ("flag".to_string(), String::new())].into_iter().collect();
     let payloads: Vec<(Vec<u8>, HashMap<String, String>)> = vec![(vec![], HashMap::new()), (vec![0, 255, 1, 254, 0], attrs.clone()), (vec![b'x'; 70_000], HashMap::new()), (vec![], attrs.clone())];
     let ids = h.publish(&hub, payloads.clone()).await.map_err(setup("publish"))?;
     if ids.len() != payloads.len() {
@@ -577,7 +580,7 @@ async fn s_push_content(h: &mut Host) -> Result<(), Fail> {
     h.topic(t).await.map_err(c10("CreateTopic of an absent, well-formed name"))?;
     let cfg_attrs: HashMap<String, String> = [("x-goog-version".to_string(), "v1".to_string())].into_iter().collect();
     h.push_sub(s, t, &url, cfg_attrs).await.map_err(c10("CreateSubscription (push) of an absent name on an existing topic"))?;
-    let attrs: HashMap<String, String> = [("k".to_string(), "v".to_string()), ("k\u{e9}".to_string(), "\u{1F600}".to_string())].into_iter().collect();
+    let attrs: HashMap<String, String> = [("k".to_string(), "v".to_string()), ("k\u{e9}".to_string(), "\u{1F600}".to_string()), ("flag".to_string(), String::new())].into_iter().collect();
     let payloads: Vec<(Vec<u8>, HashMap<String, String>)> = vec![
         (b"Hello".to_vec(), HashMap::new()),
         (b"Is this ok???>>~~".to_vec(), attrs.clone()),
